@@ -1,5 +1,9 @@
 import PiqpProofs.Basic
 import PiqpModel.Api
+import PiqpProofs.Properties.C01
+import PiqpProofs.Properties.C08
+import PiqpProofs.Properties.C13
+import PiqpProofs.Properties.C15
 
 /-!
 # C04 — an updated solver is equivalent to a freshly set-up solver
@@ -24,4 +28,277 @@ theorem updateTyped_frame (cs : Consts K) (sqrtF : K → K) (sparse : Bool) (mas
   unfold updateTyped
   exact ⟨rfl, rfl, rfl, rfl, rfl, rfl, rfl, rfl⟩
 
+end Piqp.C04
+
+/-!
+## Coherence of the solver state over call histories
+
+`Good s d0` packages the three invariants the other properties' theorems need of a solver state: the stored data are `d0`
+under the preconditioner's change of variables (C15 `Scaled`), the inverse scalings are inverses (C15 `InvFull`), and the
+KKT caches agree with the stored data (C13 `CachesOk`). `setup_good`, `update_good`, `solve_good` show that every
+operation of the interface establishes/preserves it, for every argument subset, both `reuse_preconditioner` values, dense
+and sparse, every back end; `solve_solved_certificate` then applies C01's certificate theorem to whatever problem the
+solver has been updated to.
+-/
+
+namespace Piqp.C04
+set_option linter.unusedSectionVars false
+set_option linter.unusedSimpArgs false
+set_option linter.unusedVariables false
+section coherence
+open Piqp.C13 Piqp.C15
+variable {K : Type} [Field K] [LinearOrder K] [IsStrictOrderedRing K] [Inhabited K]
+variable {n p m : Nat}
+
+/-- the solver state is a coherent image of the unscaled data `d0`: data = `d0` under the preconditioner's change of
+    variables, inverse scalings are inverses, and every KKT cache agrees with the (scaled) data -/
+structure Good (s : Solver K n p m) (d0 : Data K n p m) : Prop where
+  scaled : Scaled d0 s.data s.pre
+  inv : InvFull s.pre
+  caches : CachesOk s.be s.data s.kkt
+
+theorem setup_good (cs : Consts K) (sqrtF : K → K) (poison : K) (hg : GoodConsts cs sqrtF) (hn : 0 < n)
+    (be : Backend) (pk : PrecKind) (hk : pk ≠ .identity) (st : Settings K) (prevInfo : Info K)
+    (P : Mat K n n) (c : Vec K n) (AT : Mat K n p) (b : Vec K p) (GT : Mat K n m) (h : Option (Vec K m))
+    (xlb xub : Option (Vec K n)) :
+    Good (setupTyped cs sqrtF poison hn be pk st prevInfo P c AT b GT h xlb xub)
+      (setupRaw cs poison hn P c AT b GT h xlb xub) := by
+  unfold setupTyped
+  exact ⟨scaleData_scaled pk hk sqrtF cs _ _ false _ _, scaleData_invFull pk hk sqrtF cs hg _ _ false _ _ (fun h => by cases h),
+    init_cachesOk _ _ _ _ _ _ _ _⟩
+
+theorem mat_ext {r c : Nat} (A B : Mat K r c) (h : ∀ (i : Fin r) (j : Fin c), A[i][j] = B[i][j]) : A = B := by
+  apply Vector.ext; intro i hi
+  apply Vector.ext; intro j hj
+  exact h ⟨i, hi⟩ ⟨j, hj⟩
+
+theorem scale_unscale_P (pre : Precond K n p m) (hi : InvFull pre) (P : Mat K n n) :
+    scaleP (scaleAll (scaleP (scaleAll P pre.cInv) pre.dxInv) pre.c) pre.dx = P := by
+  apply mat_ext
+  intro i j
+  have hc := hi.c; have h1 := hi.dx i; have h2 := hi.dx j
+  simp only [scaleP, scaleAll, C15.matOfFn_get]
+  by_cases hij : i.val ≤ j.val
+  · simp only [hij, if_true]
+    calc P[i][j] * pre.cInv * pre.dxInv[i] * pre.dxInv[j] * pre.c * pre.dx[i] * pre.dx[j]
+        = P[i][j] * (pre.c * pre.cInv) * (pre.dx[i] * pre.dxInv[i]) * (pre.dx[j] * pre.dxInv[j]) := by ring
+      _ = P[i][j] := by rw [hc, h1, h2]; ring
+  · simp only [hij, if_false]
+    calc P[i][j] * pre.cInv * pre.c = P[i][j] * (pre.c * pre.cInv) := by ring
+      _ = P[i][j] := by rw [hc]; ring
+
+theorem scale_unscale_AT (pre : Precond K n p m) (hi : InvFull pre) (M : Mat K n p) :
+    scaleMat (scaleMat M pre.dxInv pre.dyInv) pre.dx pre.dy = M := by
+  apply mat_ext
+  intro i j
+  have h1 := hi.dx i; have h2 := hi.dy j
+  simp only [scaleMat, C15.matOfFn_get]
+  calc pre.dx[i] * (pre.dxInv[i] * M[i][j] * pre.dyInv[j]) * pre.dy[j]
+      = M[i][j] * (pre.dx[i] * pre.dxInv[i]) * (pre.dy[j] * pre.dyInv[j]) := by ring
+    _ = M[i][j] := by rw [h1, h2]; ring
+
+theorem scale_unscale_GT (pre : Precond K n p m) (hi : InvFull pre) (M : Mat K n m) :
+    scaleMat (scaleMat M pre.dxInv pre.dzInv) pre.dx pre.dz = M := by
+  apply mat_ext
+  intro i j
+  have h1 := hi.dx i; have h2 := hi.dz j
+  simp only [scaleMat, C15.matOfFn_get]
+  calc pre.dx[i] * (pre.dxInv[i] * M[i][j] * pre.dzInv[j]) * pre.dz[j]
+      = M[i][j] * (pre.dx[i] * pre.dxInv[i]) * (pre.dz[j] * pre.dzInv[j]) := by ring
+    _ = M[i][j] := by rw [h1, h2]; ring
+
+theorem updateRaw_P_none (cs : Consts K) (sparse : Bool) (maskP : Array Bool) (s : Solver K n p m)
+    (c : Option (Vec K n)) (A : Option (Mat K p n)) (b : Option (Vec K p))
+    (G : Option (Mat K m n)) (h : Option (Vec K m)) (xlb xub : Option (Vec K n)) :
+    (updateRaw cs sparse maskP s none c A b G h xlb xub).P = (Precond.unscaleData s.pk s.data s.pre).P := by
+  unfold updateRaw
+  cases A <;> cases G <;> cases c <;> cases b <;> cases h <;> cases xlb <;> cases xub <;> rfl
+
+theorem updateRaw_AT_none (cs : Consts K) (sparse : Bool) (maskP : Array Bool) (s : Solver K n p m)
+    (P : Option (Mat K n n)) (c : Option (Vec K n)) (b : Option (Vec K p))
+    (G : Option (Mat K m n)) (h : Option (Vec K m)) (xlb xub : Option (Vec K n)) :
+    (updateRaw cs sparse maskP s P c none b G h xlb xub).AT = (Precond.unscaleData s.pk s.data s.pre).AT := by
+  unfold updateRaw
+  cases P <;> cases G <;> cases c <;> cases b <;> cases h <;> cases xlb <;> cases xub <;> (try cases sparse) <;> rfl
+
+theorem updateRaw_GT_none (cs : Consts K) (sparse : Bool) (maskP : Array Bool) (s : Solver K n p m)
+    (P : Option (Mat K n n)) (c : Option (Vec K n)) (A : Option (Mat K p n)) (b : Option (Vec K p))
+    (h : Option (Vec K m)) (xlb xub : Option (Vec K n)) :
+    (updateRaw cs sparse maskP s P c A b none h xlb xub).GT =
+      match h with
+      | some hv => (disableInf cs (Precond.unscaleData s.pk s.data s.pre).GT hv).1
+      | none => (Precond.unscaleData s.pk s.data s.pre).GT := by
+  unfold updateRaw
+  cases P <;> cases A <;> cases c <;> cases b <;> cases h <;> cases xlb <;> cases xub <;> (try cases sparse) <;> rfl
+
+theorem disableInf_noop (cs : Consts K) (GT : Mat K n m) (h : Vec K m)
+    (hno : (List.finRange m).any (fun i => (infMask cs h)[i]) = false) : (disableInf cs GT h).1 = GT := by
+  apply mat_ext
+  intro j i
+  have hi : (infMask cs h)[i] = false := by
+    have := List.any_eq_false.mp hno i (List.mem_finRange i)
+    simpa using this
+  simp only [infMask, C15.ofFn_get] at hi
+  simp only [disableInf, C15.matOfFn_get, hi, Bool.false_eq_true, if_false]
+
+theorem scaleData_reuse_fields (pk : PrecKind) (hk : pk ≠ .identity) (sqrtF : K → K) (cs : Consts K)
+    (d : Data K n p m) (pre : Precond K n p m) (sc : Bool) (it : Nat) :
+    (pre.scaleData pk sqrtF cs d true sc it).1.P = scaleP (scaleAll d.P pre.c) pre.dx ∧
+    (pre.scaleData pk sqrtF cs d true sc it).1.AT = scaleMat d.AT pre.dx pre.dy ∧
+    (pre.scaleData pk sqrtF cs d true sc it).1.GT = scaleMat d.GT pre.dx pre.dz := by
+  cases pk
+  · exact ⟨rfl, rfl, rfl⟩
+  · exact ⟨rfl, rfl, rfl⟩
+  · exact absurd rfl hk
+
+/-- **C04, `update()` keeps the solver a coherent image of the data it now stands for.** For every argument subset
+    (each of `P, c, A, b, G, h, x_lb, x_ub` present or absent), dense or sparse `P` update, `reuse_preconditioner` on or
+    off: the new state is `Good` for `updateRaw …` — the previous data unscaled with the passed blocks replaced. In
+    particular the KKT caches (`AᵀA`, the `G` copy, `P` diagonal, KKT off-diagonals) agree with the new scaled data: the
+    option mask `update()` passes to `update_data` covers everything that changed. -/
+theorem update_good (cs : Consts K) (sqrtF : K → K) (hg : GoodConsts cs sqrtF) (sparse : Bool) (maskP : Array Bool)
+    (s : Solver K n p m) (hk : s.pk ≠ .identity) (dprev : Data K n p m) (hgood : Good s dprev)
+    (P : Option (Mat K n n)) (c : Option (Vec K n)) (A : Option (Mat K p n)) (b : Option (Vec K p))
+    (G : Option (Mat K m n)) (h : Option (Vec K m)) (xlb xub : Option (Vec K n)) (reuse : Bool) :
+    Good (updateTyped cs sqrtF sparse maskP s P c A b G h xlb xub reuse) (updateRaw cs sparse maskP s P c A b G h xlb xub) := by
+  have hinv := hgood.inv
+  unfold updateTyped
+  refine ⟨scaleData_scaled s.pk hk sqrtF cs _ _ reuse _ _, scaleData_invFull s.pk hk sqrtF cs hg _ _ reuse _ _ (fun _ => hinv), ?_⟩
+  refine (updateData_ok s.be _ s.data s.kkt _ _ _ ⟨?_, ?_, ?_⟩ hgood.caches).1
+  · -- P not flagged: P absent and the scaling reused
+    intro hf
+    have hP : P = none := by cases P <;> simp_all
+    have hr : reuse = true := by cases reuse <;> simp_all
+    subst hP; subst hr
+    rw [(scaleData_reuse_fields s.pk hk sqrtF cs _ s.pre _ _).1, updateRaw_P_none, unscaleData_eq s.pk hk]
+    exact scale_unscale_P s.pre hinv s.data.P
+  · intro hf
+    have hA : A = none := by cases A <;> simp_all
+    have hr : reuse = true := by cases reuse <;> simp_all
+    subst hA; subst hr
+    rw [(scaleData_reuse_fields s.pk hk sqrtF cs _ s.pre _ _).2.1, updateRaw_AT_none, unscaleData_eq s.pk hk]
+    exact scale_unscale_AT s.pre hinv s.data.AT
+  · intro hf
+    have hG : G = none := by cases G <;> simp_all
+    have hr : reuse = true := by cases reuse <;> simp_all
+    subst hG; subst hr
+    rw [(scaleData_reuse_fields s.pk hk sqrtF cs _ s.pre _ _).2.2, updateRaw_GT_none, unscaleData_eq s.pk hk]
+    cases h with
+    | none => exact scale_unscale_GT s.pre hinv s.data.GT
+    | some hv =>
+      have hno : (List.finRange m).any (fun i => (infMask cs hv)[i]) = false := by simp_all
+      simp only
+      rw [disableInf_noop cs _ hv hno]
+      exact scale_unscale_GT s.pre hinv s.data.GT
+
+/-- an invariant of `rescale` and `factor` is an invariant of the factorisation-retry loop before the first iterate -/
+theorem initLoopG_invariant {σ : Type} (st : Settings K) (cs : Consts K) (ops : LoopOps K σ) (Inv : σ → Prop)
+    (hr : ∀ s info, Inv s → Inv (ops.rescale s info)) (hf : ∀ b s, Inv s → Inv (ops.factor b s).1)
+    (refineOn : Bool) (retries : Nat) (s : σ) (info : Info K) (h : Inv s) :
+    Inv (initLoopG st cs ops refineOn retries s info).2.2.1 := by
+  fun_induction initLoopG st cs ops refineOn retries s info
+  · exact hf _ _ h
+  · rename_i ih; exact ih (hf _ _ h)
+  · rename_i ih; exact ih (hr _ _ (hf _ _ h))
+  · exact hf _ _ h
+
+theorem regFactor_cachesOk (be : Backend) (st : KKTSettings K) (d : Data K n p m) (k : KKT K n p m) (refine : Bool)
+    (inner : Inner K n p m) (hc : CachesOk be d k) : CachesOk be d (KKT.regFactor be st d k refine inner) :=
+  hc.transfer rfl rfl rfl (fun _ _ _ _ => rfl) (fun _ => rfl) (fun _ => rfl)
+
+/-- every numeric operation of the real solver keeps the KKT caches in agreement with the data -/
+theorem realOps_preserve_caches (e : Env K n p m) :
+    C08.OpsPreserve (realOps e) (fun s : NumState K n p m => CachesOk e.be e.data s.2) where
+  head := fun b s info h => h
+  reg := fun s info h => h
+  shift := fun s info h => h
+  rescale := fun s info h => (updateScalings_coherent e.be e.data s.2 _ _ _ _ _ _ _ _ h).2
+  factor := fun b s h => regFactor_cachesOk _ _ _ _ _ _ h
+  stepNum := fun b s info h => h
+  applyFlags := fun s a b h => h
+
+theorem solveStart_caches (cs : Consts K) (sqrtF : K → K) (s : Solver K n p m) (perm : Vector (Fin (n + p + m)) (n + p + m))
+    (hc : CachesOk s.be s.data s.kkt) : CachesOk s.be s.data (solveStart cs sqrtF s perm).2.1 := by
+  unfold solveStart
+  simp only
+  split
+  · exact (updateScalings_coherent s.be s.data s.kkt _ _ _ _ _ _ _ _ hc).2
+  · exact hc
+
+theorem initialPoint_kkt (cs : Consts K) (s : Solver K n p m) (e : Env K n p m) (w0 : Work K n p m) (kkt1 : KKT K n p m)
+    (info1 : Info K) (refineOn : Bool) : (initialPoint cs s e w0 kkt1 info1 refineOn).kkt = kkt1 := by
+  unfold initialPoint
+  rfl
+
+/-- **C04, `solve()` keeps the solver coherent** (data and preconditioner are not touched; the KKT caches stay in
+    agreement through every rescaling and every (re)factorisation of the initial retry loop and of the main loop) -/
+theorem solve_good (cs : Consts K) (sqrtF : K → K) (s : Solver K n p m) (perm : Vector (Fin (n + p + m)) (n + p + m))
+    (d0 : Data K n p m) (hgood : Good s d0) : Good (solveTyped cs sqrtF s perm).1 d0 := by
+  have hil := initLoopG_invariant s.st cs (realOps (Solver.env cs sqrtF s perm)) (fun st : NumState K n p m => CachesOk s.be s.data st.2)
+    (realOps_preserve_caches (Solver.env cs sqrtF s perm)).rescale (realOps_preserve_caches (Solver.env cs sqrtF s perm)).factor
+    s.refineOn 0 ((solveStart cs sqrtF s perm).1, (solveStart cs sqrtF s perm).2.1) (solveStart cs sqrtF s perm).2.2
+    (solveStart_caches cs sqrtF s perm hgood.caches)
+  unfold solveTyped
+  split
+  · exact ⟨hgood.scaled, hgood.inv, hgood.caches⟩
+  · simp only
+    split
+    · exact ⟨hgood.scaled, hgood.inv, hil⟩
+    · refine ⟨hgood.scaled, hgood.inv, ?_⟩
+      have := C08.loopG_invariant s.st cs (realOps (Solver.env cs sqrtF s perm))
+        (fun st : NumState K n p m => CachesOk s.be s.data st.2) (realOps_preserve_caches (Solver.env cs sqrtF s perm))
+      unfold mainLoop
+      exact this _ _ _ (by rw [initialPoint_kkt]; exact hil)
+
+theorem initialPoint_iter (cs : Consts K) (s : Solver K n p m) (e : Env K n p m) (w0 : Work K n p m) (kkt1 : KKT K n p m)
+    (info1 : Info K) (refineOn : Bool) : (initialPoint cs s e w0 kkt1 info1 refineOn).c.iter = 0 := by
+  unfold initialPoint
+  rfl
+
+/-- **C04 + C01, end to end at the interface level.**  Let `s` be any solver state that is `Good` for data `d0` —
+    by `setup_good`, `update_good`, `solve_good` that is every state reachable by `setup`, any number of `update`s with any
+    argument subsets and either `reuse_preconditioner`, and any number of `solve`s, with `d0` the data the last
+    `setup`/`update` handed to the preconditioner.  If `solve()` returns SOLVED, the returned vectors are the unscaled
+    (and, for the bound multipliers and slacks, re-indexed) image of a loop iterate `wl` for which the optimality
+    certificate of `d0` holds within the tolerances: an updated solver certifies the problem it has been updated to,
+    exactly as a freshly set-up one would. -/
+theorem solve_solved_certificate (cs : Consts K) (sqrtF : K → K) (s : Solver K n p m) (perm : Vector (Fin (n + p + m)) (n + p + m))
+    (d0 : Data K n p m) (hk : s.pk ≠ .identity) (hgood : Good s d0)
+    (hsolved : (solveTyped cs sqrtF s perm).2 = Status.solved) :
+    ∃ wl : Work K n p m,
+      let res := (solveTyped cs sqrtF s perm).1
+      let x := s.pre.unscalePrimal s.pk wl.x
+      let y := s.pre.unscaleDualEq s.pk wl.y
+      let z := s.pre.unscaleDualIneq s.pk wl.z
+      let zl := s.pre.unscaleDualLb s.pk wl.z_lb
+      let zu := s.pre.unscaleDualUb s.pk wl.z_ub
+      res.w.x = x ∧ res.w.y = y ∧ res.w.z = z ∧ res.w.s = s.pre.unscaleSlackIneq s.pk wl.s ∧
+      res.w.z_lb = restoreBox s.data.lb 0 zl ∧ res.w.z_ub = restoreBox s.data.ub 0 zu ∧
+      res.w.s_lb = restoreBox s.data.lb cs.posInf (s.pre.unscaleSlackLb s.pk wl.s_lb) ∧
+      res.w.s_ub = restoreBox s.data.ub cs.posInf (s.pre.unscaleSlackUb s.pk wl.s_ub) ∧
+      (∀ i : Fin n, vabs (C01.userDualRes d0 x y z zl zu i) < s.st.epsAbs + s.st.epsRel * res.info.dualRelInf) ∧
+      (∀ t : Fin p, vabs (d0.b[t] - ∑ i : Fin n, d0.AT[i][t] * x[i]) < s.st.epsAbs + s.st.epsRel * res.info.primalRelInf) ∧
+      (∀ t : Fin m, vabs (d0.h[t] - (∑ i : Fin n, d0.GT[i][t] * x[i]) - (s.pre.unscaleSlackIneq s.pk wl.s)[t])
+          < s.st.epsAbs + s.st.epsRel * res.info.primalRelInf) ∧
+      (∀ a : Fin n, a.val < d0.lb.cnt →
+          vabs (d0.lb.sc[a] * x[d0.lb.idx[a]] + d0.lb.val[a] - (s.pre.unscaleSlackLb s.pk wl.s_lb)[a])
+            < s.st.epsAbs + s.st.epsRel * res.info.primalRelInf) ∧
+      (∀ a : Fin n, a.val < d0.ub.cnt →
+          vabs (-d0.ub.sc[a] * x[d0.ub.idx[a]] + d0.ub.val[a] - (s.pre.unscaleSlackUb s.pk wl.s_ub)[a])
+            < s.st.epsAbs + s.st.epsRel * res.info.primalRelInf) ∧
+      (s.st.checkDualityGap = true → res.info.dualityGap < s.st.epsGapAbs + s.st.epsGapRel * res.info.dualityGapRel) := by
+  unfold solveTyped at hsolved ⊢
+  split at hsolved
+  · exact absurd hsolved (by simp)
+  · simp only at hsolved
+    split at hsolved
+    · exact absurd hsolved (by simp)
+    · rename_i hv hok
+      simp only [hv, hok, if_false, Bool.false_eq_true]
+      have hc := C01.solved_certificate (Solver.env cs sqrtF s perm) d0 hk hgood.scaled hgood.inv _
+        (initialPoint_iter cs s (Solver.env cs sqrtF s perm) _ _ _ _) hsolved
+      obtain ⟨c1, c2, c3, c4, c5, c6, c7⟩ := hc
+      exact ⟨_, rfl, rfl, rfl, rfl, rfl, rfl, rfl, rfl, c1, c2, c3, c4, c5, c6⟩
+
+end coherence
 end Piqp.C04
